@@ -11,3 +11,14 @@ for f in sorted(glob.glob(os.path.join(ROOT, "props", "C*.known.json"))):
             ids[k["id"]] = len(kf); kf.append(k)
 json.dump(kf, open(os.path.join(ROOT, "known_findings.json"), "w"), indent=1)
 print(len(kf), "entries")
+
+# plain-text companion (one line per entry, in the brief's wording)
+lines = ["# Generated from known_findings.json by bin/mergeknown.py (never written at check time).",
+         "# A `fixed:` line suppresses nothing: its witness is replayed on every run and a failure is a VIOLATION.", ""]
+for k in kf:
+    if k["status"] == "fixed":
+        lines.append("fixed: property=%s %s %s %s" % (k["property"], k.get("commit", "?"), k["id"], " ".join((k.get("what") or "").split())))
+for k in kf:
+    if k["status"] == "finding":
+        lines.append("finding: property=%s %s %s" % (k["property"], k["id"], " ".join((k.get("what") or "").split())))
+open(os.path.join(ROOT, "known_findings.txt"), "w").write("\n".join(lines) + "\n")
